@@ -812,100 +812,31 @@ Qed.
 Lemma pick_idx_range : forall r h, sorted_ix r -> r <> [] -> 0 <= pick_idx r h < zlen r.
 Proof. intros r h Hs Hne. destruct (pick_idx_spec r h Hs Hne) as [H _]. exact H. Qed.
 
-Lemma step_holds : forall c s cs pos op s' o, cfg_ok c -> Inv s cs ->
-  step c s op = Some (s', o) ->
-  Inv s' (fst (cl_step c cs pos op o)) /\ walk_ok (snd (cl_step c cs pos op o)) = true.
+Lemma cl_req_model : forall r sts h, sorted_ix r -> r <> [] ->
+  cl_req r sts h (presult_obs (pick_req r sts h)) = true.
 Proof.
-  intros c s cs pos op s' o Hc (Hring & Hidx & Hsorted & Hrange) Hstep.
-  destruct op as [|t r]; [discriminate|].
-  destruct (Z.eq_dec t 1) as [->|N1].
-  { (* build *)
-    cbn [step cl_step] in *. unfold cl_build.
-    destruct (select c r) as [eps|] eqn:Esel.
-    - destruct (new_ring (minR c) (maxR c) eps) as [ring|] eqn:Er; [|discriminate].
-      inversion Hstep; subst.
-      destruct (new_ring_inv _ _ _ _ Hc Esel Er) as [Hs' Hr'].
-      rewrite (ring_of_obs_ring_obs ring Hr'). cbn [fst snd].
-      split; [repeat split; assumption|reflexivity].
-    - inversion Hstep; subst. cbn [fst snd]. split; [repeat split; assumption|reflexivity]. }
-  destruct (Z.eq_dec t 2) as [->|N2].
-  { (* ring.pick *)
-    destruct r as [|h [|? ?]]; try discriminate.
-    cbn [step cl_step] in *. rewrite Hring.
-    destruct (cur_ring s) as [|e0 r0] eqn:Ering.
-    - inversion Hstep; subst. cbn [fst snd]. split; [repeat split; try assumption; rewrite Ering; assumption|reflexivity].
-    - rewrite <- Ering in *. inversion Hstep; subst. cbn [fst snd].
-      split; [repeat split; assumption|].
-      assert (Hne: cur_ring s' <> []) by (rewrite Ering; discriminate).
-      rewrite <- (pick_idx_is_spec _ (u64 h) Hsorted Hne).
-      pose proof (pick_idx_range _ (u64 h) Hsorted Hne) as Hi.
-      rewrite u64_i64.
-      + cbn. rewrite !Z.eqb_refl. reflexivity.
-      + rewrite Forall_forall in Hrange. apply Hrange, znth_in, Hi. }
-  destruct (Z.eq_dec t 3) as [->|N3].
-  { (* Pick, request hash *)
-    destruct r as [|h ss]; try discriminate.
-    cbn [step cl_step] in *. rewrite Hring, Hidx.
-    destruct (cur_ring s) as [|e0 r0] eqn:Ering.
-    - inversion Hstep; subst. cbn [fst snd]. split; [repeat split; try assumption; rewrite Ering; assumption|reflexivity].
-    - rewrite <- Ering in *. inversion Hstep; subst. cbn [fst snd].
-      split; [repeat split; assumption|].
-      assert (Hne: cur_ring s' <> []) by (rewrite Ering; discriminate).
-      unfold pick_req. rewrite pick_req_is_spec by (apply pick_idx_range; assumption).
-      rewrite (pick_idx_is_spec _ (u64 h) Hsorted Hne).
-      cbn. rewrite word_eqb_refl. reflexivity. }
-  destruct (Z.eq_dec t 4) as [->|N4].
-  { (* Pick, random hash *)
-    destruct r as [|h ss]; try discriminate.
-    cbn [step cl_step] in *. rewrite Hring, Hidx.
-    destruct (cur_ring s) as [|e0 r0] eqn:Ering.
-    - inversion Hstep; subst. cbn [fst snd]. split; [repeat split; try assumption; rewrite Ering; assumption|reflexivity].
-    - rewrite <- Ering in *. inversion Hstep; subst.
-      assert (Hne: cur_ring s' <> []) by (rewrite Ering; discriminate).
-      pose proof (pick_idx_range _ (u64 h) Hsorted Hne) as Hi.
-      unfold pick_rnd.
-      pose proof (pick_rnd_is_spec (cur_ring s') (sts_of c (cur_idx s') ss) _ Hi) as Hspec.
-      destruct (walk_rnd (length (cur_ring s')) (cur_ring s') (sts_of c (cur_idx s') ss)
-                  (pick_idx (cur_ring s') (u64 h)) 0 (has_connecting (sts_of c (cur_idx s') ss)) [])
-        as [[code k] ex] eqn:Ew.
-      destruct Hspec as [Hck Hex].
-      pose proof (walk_rnd_exits _ _ _ _ _ _ Hi Ew) as (Hlen & Hconn & _).
-      cbn [presult_obs]. cbn [fst snd].
-      split; [repeat split; assumption|].
-      rewrite <- (pick_idx_is_spec _ (u64 h) Hsorted Hne).
-      rewrite <- Hck, <- Hex. unfold walk_ok. cbn [forallb fst snd walk_clause].
-      rewrite !Z.eqb_refl, word_eqb_refl.
-      assert (zlen ex <=? 1 = true) as -> by (apply Z.leb_le; unfold zlen; lia).
-      destruct (has_connecting (sts_of c (cur_idx s') ss)) eqn:Ehc.
-      + rewrite (Hconn eq_refl). reflexivity.
-      + reflexivity. }
-  exfalso. cbn [step] in Hstep.
-  destruct t as [|p|p]; try discriminate Hstep.
-  destruct p as [[[p|p|]|[p|p|]|]|[[p|p|]|[p|p|]|]|]; try discriminate Hstep; congruence.
+  intros r sts h Hs Hne. unfold cl_req, pick_req.
+  rewrite pick_req_is_spec by (apply pick_idx_range; assumption).
+  rewrite (pick_idx_is_spec _ h Hs Hne). apply word_eqb_refl.
 Qed.
 
-Lemma run_from_holds : forall c, cfg_ok c -> forall ops s cs pos obs, Inv s cs ->
-  run_from c s ops = Some obs -> walk_ok (clauses_from c cs pos ops obs) = true.
+Lemma cl_rnd_model : forall r sts h, sorted_ix r -> r <> [] ->
+  cl_rnd_a r sts h (presult_obs (pick_rnd r sts h)) = true /\
+  cl_rnd_b r sts h (presult_obs (pick_rnd r sts h)) = true.
 Proof.
-  intros c Hc. induction ops as [|op ops IH]; intros s cs pos obs HI Hrun; cbn [run_from] in Hrun.
-  - inversion Hrun; subst. reflexivity.
-  - destruct (step c s op) as [[s' o]|] eqn:Es; [|discriminate].
-    destruct (run_from c s' ops) as [os|] eqn:Er; [|discriminate].
-    inversion Hrun; subst. cbn [clauses_from].
-    destruct (step_holds c s cs pos op s' o Hc HI Es) as [HI' Hcl].
-    destruct (cl_step c cs pos op o) as [cs' cl]. cbn [fst snd] in *.
-    unfold walk_ok in *. rewrite forallb_app, Hcl. cbn [andb].
-    eapply IH; eassumption.
-Qed.
-
-Theorem model_trace_holds : forall cfg ops obs,
-  run cfg ops = Some obs -> holds_b cfg ops obs = true.
-Proof.
-  intros cfg ops obs H. unfold run in H. unfold holds_b, clauses.
-  destruct (decode_cfg cfg) as [c|] eqn:Ec; [|discriminate].
-  apply (run_from_holds c (decode_cfg_ok _ _ Ec) ops (mkst [] []) (mkcs [] [] []) 0 obs); [|exact H].
-  repeat split; cbn; [|apply Forall_nil].
-  intros a b Hab Hb. unfold zlen in Hb. cbn in Hb. lia.
+  intros r sts h Hs Hne. unfold pick_rnd.
+  pose proof (pick_idx_range _ h Hs Hne) as Hi.
+  pose proof (pick_rnd_is_spec r sts _ Hi) as Hspec.
+  destruct (walk_rnd (length r) r sts (pick_idx r h) 0 (has_connecting sts) []) as [[code k] ex] eqn:Ew.
+  destruct Hspec as [Hck Hex].
+  pose proof (walk_rnd_exits _ _ _ _ _ _ Hi Ew) as (Hlen & Hconn & _).
+  cbn [presult_obs]. unfold cl_rnd_a, cl_rnd_b.
+  rewrite <- (pick_idx_is_spec _ h Hs Hne). rewrite <- Hck, <- Hex.
+  rewrite !Z.eqb_refl, word_eqb_refl. split; [reflexivity|].
+  assert (zlen ex <=? 1 = true) as -> by (apply Z.leb_le; unfold zlen; lia).
+  destruct (has_connecting sts) eqn:Ehc.
+  - rewrite (Hconn eq_refl). reflexivity.
+  - reflexivity.
 Qed.
 
 (* ================= concrete witnesses ================= *)
